@@ -1468,6 +1468,10 @@ const SIGNATURE_CALLS: &[&str] = &[
     "get(.x, [\"a\"])", "set(.x, [\"a\"], 1)", "remove(.x, [\"a\"])", "match(.x, r'a')", "parse_regex(.x, r'(?P<a>a)')", "zip(.x)", "encode_base64(.x)", "decode_base64(.x)",
     "to_unix_timestamp(.x)", "from_unix_timestamp(.x)", "format_timestamp(.x, \"%F\")", "parse_timestamp(.x, \"%F\")", "tally(.x)", "match_array(.x, r'a')", "includes(.x, 1)", "pop(.x)",
     "basename(.x)", "dirname(.x)", "parse_key_value(.x)", "parse_url(.x)", "parse_duration(.x, \"s\")", "ip_to_ipv6(.x)", "is_ipv4(.x)", "uuid_from_friendly_id(.x)", "parse_query_string(.x)", "type_def(.x)",
+    // the runtime-typed argument in a later position
+    "random_int(.x, 10)", "random_int(0, .x)", "random_bytes(.x)", "random_float(.x, 1.0)", "truncate(\"abc\", .x)", "slice(\"abc\", .x)", "chunks(\"abc\", .x)", "format_int(5, .x)",
+    "replace(\"a\", \"a\", \"b\", count: .x)", "split(\"a,b\", \",\", limit: .x)", "round(1.5, precision: .x)", "find(\"abc\", \"a\", from: .x)", "ip_subnet(\"1.2.3.4\", .x)", "join([\"a\"], .x)",
+    "push([], .x)", "get({}, .x)", "contains(\"a\", .x)", "mod(5, .x)", "format_number(1.5, .x)", "ip_cidr_contains(.x, \"1.2.3.4\")", "merge({}, .x)", "starts_with(\"a\", .x)", "includes([1], .x)",
 ];
 
 /// C03 bounded stand-in: stdlib calls whose first argument is typed only at runtime.  For every argument
